@@ -29,6 +29,18 @@ CONTEXTS.update({
     "ref_ref": lambda t: Ref(Ref(t)),
     "tuple4_last": lambda t: Tup(P("i32"), P("String"), P("bool"), t),
 })
+# contexts that mention the enclosing type itself next to the target (self-referential field with another type)
+SELF_CONTEXTS = {
+    "self_vec_tuple": lambda me, t: P("Vec", Tup(me, t)),
+    "self_map_tuple": lambda me, t: P("HashMap", P("String"), Tup(t, P("Option", me))),
+    "self_opt_tuple": lambda me, t: P("Option", Tup(P("Vec", me), t, P("i32"))),
+}
+
+
+def field_type(ctx, me, t):
+    return SELF_CONTEXTS[ctx](me, t) if ctx in SELF_CONTEXTS else CONTEXTS[ctx](t)
+
+
 # contexts outside every known class, usable in a struct field
 CLEAN_FIELD = ["direct", "option", "vec", "map_value", "btree_value", "set", "btree_set", "tuple_first", "tuple_last",
                "ref", "opt_vec", "vec_opt", "map_vec", "vec_tuple", "opt_opt", "map_key", "tuple_mid", "opt_tuple_vec",
@@ -41,6 +53,11 @@ KF_RET = ["result_map", "result_alias", "tuple_map", "result_tuple"]
 
 TYPE_NAMES = ["User", "Profile", "Settings", "Item", "Order", "Address", "Status", "Kind", "Report", "Node", "Leaf", "Meta",
               "Account", "Token", "Batch", "Zone"]
+# names that overlap with std type names used in field types (HashMap, Option, HashSet, BTreeMap, String, Result, Vec, Channel)
+STD_LIKE = ["Map", "Set", "Opt", "Hash", "Tree", "Str", "Res", "Vec2", "Box2", "Chan", "Tup", "Has", "Ion"]
+BASES = ["Order", "User", "Node", "T1", "Item", "A", "Ab", "Job", "Log", "Cfg"]
+SUFFIXES = ["Item", "Kind", "List", "Profile", "Data", "Entry", "2", "0", "Ref", "Id", "X", "s"]
+PREFIXES = ["Sub", "My", "New", "Re", "X"]
 FIELD_NAMES = ["id", "name", "user_id", "created_at", "value", "items", "is_active", "x1", "http_code", "a", "data_2d",
                "b2", "next", "left", "right", "extra"]
 FN_NAMES = ["get_user", "save", "list_items", "do_it", "fetch_all", "update_profile", "ping", "compute_2x", "load", "sync_now"]
@@ -63,6 +80,7 @@ def build(spec):
         for k in range(nfiles):
             items[file_name(k)].append({"kind": "raw", "text": "pub type Result<T> = std::result::Result<T, String>;"})
     inline = {}                      # file -> [(text, sx)] of definitions placed in an inline module
+    fnames = spec.get("field_names") or FIELD_NAMES
     for i, t in enumerate(types):
         f = file_name(t.get("file", 0))
         name, kind = t["name"], t["kind"]
@@ -71,7 +89,7 @@ def build(spec):
             k = 0
             for (a, b, ctx) in spec["edges"]:
                 if a == i:
-                    fields.append({"name": FIELD_NAMES[k % len(FIELD_NAMES)], "ty": CONTEXTS[ctx](P(types[b]["name"])), "serde": [], "validate": []})
+                    fields.append({"name": fnames[k % len(fnames)], "ty": field_type(ctx, P(name), P(types[b]["name"])), "serde": [], "validate": []})
                     k += 1
             for extra in t.get("plain", [["id", "i32"]]):
                 fields.append({"name": "p_" + extra[0], "ty": P(extra[1]), "serde": [], "validate": []})
@@ -93,8 +111,8 @@ def build(spec):
             k = 0
             for (a, b, ctx) in spec["edges"]:
                 if a == i:
-                    fields.append({"name": FIELD_NAMES[k % len(FIELD_NAMES)] + ("" if k < len(FIELD_NAMES) else str(k)),
-                                   "ty": CONTEXTS[ctx](P(types[b]["name"])), "serde": [], "validate": []})
+                    fields.append({"name": fnames[k % len(fnames)] + ("" if k < len(fnames) else str(k)),
+                                   "ty": field_type(ctx, P(name), P(types[b]["name"])), "serde": [], "validate": []})
                     k += 1
             for extra in t.get("plain", [["id", "i32"]]):
                 fields.append({"name": "p_" + extra[0], "ty": P(extra[1]), "serde": [], "validate": []})
@@ -177,6 +195,58 @@ def run_cli(case, modes=("none", "zod"), tag="c07", reps=1):
 
 # ------------------------------------------------------------------ graph specs
 
+def snake(name):
+    out = []
+    for i, ch in enumerate(name):
+        if ch.isupper() and i and not name[i - 1].isupper():
+            out.append("_")
+        out.append(ch.lower())
+    return "".join(out)
+
+
+def bad_name(nm, taken):
+    return (nm in taken or nm.endswith("Params") or nm.endswith("Schema") or len(nm) > 40 or not nm[0].isupper()
+            or nm in ("Option", "Result", "Vec", "HashMap", "BTreeMap", "HashSet", "BTreeSet", "String", "Channel", "Hidden", "PlainData", "AppError"))
+
+
+def overlap_names(rng, types, edges, n):
+    """Rename the first n types so that names overlap along the edges of the graph: a child's name extends,
+    prefixes or wraps its parent's (Order/OrderItem/OrderItemKind, T1/T10, Node/SubNode/MyNodeData), or is a
+    component of it (OrderItem -> Item), or a name resembles a std type used in field types (Map, Opt, Set, Vec2)."""
+    taken = set(t["name"] for t in types[n:])
+    names = [None] * n
+    for i in range(n):
+        parents = [a for (a, b, _) in edges if b == i and a < i and names[a]]
+        cand = None
+        for _ in range(20):
+            r = rng.random()
+            if parents and r < 0.75:
+                pn = names[rng.choice(parents)]
+                style = rng.choice(["suffix", "suffix", "prefix", "infix", "component"])
+                if style == "suffix":
+                    cand = pn + rng.choice(SUFFIXES)
+                elif style == "prefix":
+                    cand = rng.choice(PREFIXES) + pn
+                elif style == "infix":
+                    cand = rng.choice(PREFIXES) + pn + rng.choice(SUFFIXES)
+                else:
+                    parts = [x for x in SUFFIXES + BASES + PREFIXES if x in pn and x != pn and x[0].isupper()]
+                    cand = rng.choice(parts) if parts else pn + "0"
+            elif r < 0.9:
+                cand = rng.choice(STD_LIKE + BASES)
+            else:
+                cand = rng.choice(BASES) + rng.choice(SUFFIXES)
+            if not bad_name(cand, taken):
+                break
+            cand = None
+        if cand is None:
+            cand = "Zq%d" % i
+        names[i] = cand
+        taken.add(cand)
+    for i in range(n):
+        types[i]["name"] = names[i]
+
+
 def mk_types(rng, n, nfiles, p_enum=0.15, serde_all=True):
     names = rng.sample(TYPE_NAMES, n)
     ts = []
@@ -227,6 +297,13 @@ def random_spec(rng, clean=True, acyclic=None, max_types=8, events=True):
     pctx = CLEAN_PARAM if clean else CLEAN_PARAM + KF_PARAM
     rctx = CLEAN_RET if clean else CLEAN_RET + KF_RET
     edges = random_edges(rng, types, shape, fctx, acyclic)
+    naming = rng.choice(["plain", "overlap", "overlap"])
+    if naming == "overlap":
+        overlap_names(rng, types, edges, n)
+    if not acyclic and edges and rng.random() < 0.4:       # self-referential field that also mentions another type
+        e = rng.choice(edges)
+        if e[2] in CLEAN_FIELD:
+            e[2] = rng.choice(sorted(SELF_CONTEXTS))
     # decoys: unreachable serde type, non-serde type referenced from a field, error-arm-only serde type
     decoy_roles = {}
     if rng.random() < 0.7:
@@ -247,7 +324,13 @@ def random_spec(rng, clean=True, acyclic=None, max_types=8, events=True):
         if owners and "unreachable" in decoy_roles:
             types[rng.choice(owners)]["skipped"] = [decoy_roles["unreachable"]]
     cmds = []
-    names = rng.sample(FN_NAMES, rng.randint(1, 4))
+    field_names = None
+    if naming == "overlap":                 # field and command names built from the type names
+        field_names = list(dict.fromkeys([snake(t["name"]) for t in types[:n]] + [snake(t["name"]) + "_id" for t in types[:n]]))
+        pool = list(dict.fromkeys(["get_" + snake(t["name"]) for t in types[:n]] + [snake(t["name"]) for t in types[:n]] + FN_NAMES))
+        names = rng.sample(pool, rng.randint(1, 4))
+    else:
+        names = rng.sample(FN_NAMES, rng.randint(1, 4))
     for cn in names:
         roots = []
         for _ in range(rng.randint(0, 2)):
@@ -285,7 +368,8 @@ def random_spec(rng, clean=True, acyclic=None, max_types=8, events=True):
     alias = any(ctx in ("result_alias", "vec_result_alias") for (_, _, ctx) in edges) or \
         any(r[2] == "result_alias" for c in cmds for r in c["roots"])
     return {"types": types, "edges": edges, "cmds": cmds, "helpers": helpers, "nfiles": nfiles, "alias": alias,
-            "shape": shape, "acyclic": acyclic, "clean": clean, "decoys": decoy_roles}
+            "shape": shape, "acyclic": acyclic, "clean": clean, "decoys": decoy_roles, "naming": naming,
+            "field_names": field_names}
 
 
 def dag_shapes(n):
@@ -295,10 +379,17 @@ def dag_shapes(n):
         yield [p for k, p in enumerate(pairs) if mask >> k & 1]
 
 
-def small_spec(n, edge_list, ctxs, root_mode, nfiles=2):
+SMALL_SCHEMES = [TYPE_NAMES,
+                 ["Order", "OrderItem", "OrderItemKind", "OrderItemKindTag"],       # child extends parent
+                 ["T1", "T10", "T100", "T1000"],
+                 ["Map", "Opt", "Set", "Str"],                                      # substrings of std names in the field text
+                 ["MyNodeListData", "NodeList", "Node", "No"]]                      # child is a component of the parent
+
+
+def small_spec(n, edge_list, ctxs, root_mode, nfiles=2, scheme=0):
     """exhaustive small shapes: types T0..Tn-1 all structs; roots: every source node as a parameter (root_mode 0)
     or node 0 only via return (1)"""
-    names = TYPE_NAMES[:n]
+    names = SMALL_SCHEMES[scheme % len(SMALL_SCHEMES)][:n]
     types = [{"name": names[i], "kind": "struct", "derives": ["Serialize", "Deserialize"], "file": i % nfiles} for i in range(n)]
     edges = [[a, b, c] for (a, b), c in zip(edge_list, ctxs)]
     targets = {b for a, b in edge_list}
@@ -310,4 +401,31 @@ def small_spec(n, edge_list, ctxs, root_mode, nfiles=2):
         roots = [["ret", 0, "result_ok"]]
     alias = any(c in ("result_alias", "vec_result_alias") for c in ctxs)
     return {"types": types, "edges": edges, "cmds": [{"name": "run_it", "file": 0, "roots": roots}], "helpers": [],
-            "nfiles": nfiles, "alias": alias, "shape": "small", "acyclic": True, "clean": all(c in CLEAN_FIELD for c in ctxs)}
+            "nfiles": nfiles, "alias": alias, "shape": "small", "acyclic": True, "clean": all(c in CLEAN_FIELD for c in ctxs),
+            "naming": "scheme%d" % (scheme % len(SMALL_SCHEMES))}
+
+
+ROOT_KINDS = [("cmd", ["param", "direct"]), ("cmd", ["param", "opt_vec"]), ("cmd", ["ret", "result_ok"]), ("cmd", ["ret", "vec"]),
+              ("cmd", ["channel", "direct"]), ("cmd", ["event", "direct"]), ("cmd", ["event", "literal"]),
+              ("helper", ["event", "ref"]), ("helper", ["event", "direct"]), ("helper", ["event", "literal"])]
+
+
+def crossfile_specs(rng):
+    """every kind of root with the root type defined in another file than the function that mentions it, the
+    root type reachable through that root only, its child in a third file; other commands elsewhere"""
+    specs = []
+    for where, (how, ctx) in ROOT_KINDS:
+        for variant in range(3):
+            nfiles = 3 + variant % 2
+            pool = rng.sample(TYPE_NAMES, 4)
+            types = [{"name": pool[0], "kind": "struct", "derives": ["Serialize", "Deserialize"], "file": 1},
+                     {"name": pool[1], "kind": "struct", "derives": ["Serialize", "Deserialize"], "file": 2},
+                     {"name": pool[2], "kind": "struct", "derives": ["Serialize", "Deserialize"], "file": variant % nfiles},
+                     {"name": pool[3], "kind": "enum", "derives": ["Serialize"], "file": (variant + 1) % nfiles}]
+            edges = [[0, 1, rng.choice(CLEAN_FIELD)], [2, 3, "direct"]]
+            fn = {"name": "emit_it" if how == "event" else "use_it", "file": 0, "roots": [[how, 0, ctx]]}
+            other = {"name": "other_cmd", "file": variant % nfiles, "roots": [["param", 2, "direct"]]}
+            cmds, helpers = ([fn, other], []) if where == "cmd" else ([other], [fn])
+            specs.append({"types": types, "edges": edges, "cmds": cmds, "helpers": helpers, "nfiles": nfiles, "alias": False,
+                          "shape": "crossfile", "acyclic": True, "clean": True, "naming": "plain"})
+    return specs
